@@ -215,6 +215,7 @@ def exec_equiv(case):
     q = quantize_weight(x, qint4, 0, 128)
     codes_grouped = q._data.unpack()  # (N*K/128, 128)
     size, stride = q.size(), q.stride()
+    keep = (q._scale.clone(), q._zeropoint.clone(), codes_grouped.clone())
     data = codes_grouped if case["grouped_input"] else lay(codes_grouped.reshape(size).contiguous(), case["layout"])
     a = cut(AWQBitsTensor, qint4, 0, 128, size, stride, data, q._scale, q._zeropoint)
     out.fingerprint = [case["shape"], names[:6], case["grouped_input"], case["layout"]]
@@ -276,6 +277,9 @@ def exec_equiv(case):
             db = cut(b.dequantize)
             if isinstance(db, Raised) or not torch.equal(db.nan_to_num(), dq.nan_to_num()):
                 out.fail(f"{tag}/dequantize", "converted tensor does not dequantize like the standard one")
+    # building and converting the optimised representation only reads the standard one
+    if not (torch.equal(q._scale, keep[0]) and torch.equal(q._zeropoint, keep[1]) and torch.equal(codes_grouped, keep[2])):
+        out.fail("equiv/source-modified", "codes, scales or zero-points of the standard tensor changed while the AWQ representation was built / converted back")
     return out
 
 
